@@ -29,7 +29,8 @@ ANCHORS = ['array:Array.iterappend', 'array:Array.append', 'array:Array._append'
 REQUIRED = ['mon.failure_oracle', 'mon.write_fault_children', 'mon.logic_faults']
 MIN_NONTRIVIAL = {'quick': 700, 'thorough': 5000}
 
-LOGIC_KINDS = ['iterraises', 'badshape', 'badrank', 'unconvertible_str', 'complex_into_real', 'int_too_large', 'zerod']
+LOGIC_KINDS = ['iterraises', 'badshape', 'badrank', 'unconvertible_str', 'complex_into_real', 'int_too_large', 'zerod',
+               'badshape_samesize', 'badshape0rows']   # added after seed C09-22: same rank and row size, other trailing shape; no rows but wrong trailing shape
 TRAILS = [(), (2,), (2, 3)]
 
 
@@ -112,6 +113,11 @@ def bad_chunk(kind, dtype, trail):
         return np.zeros((1,) + (trail[:-1] + (trail[-1] + 1,) if trail else (2,)), dtype=dtype)
     if kind == 'badrank':
         return np.zeros((2,) + trail[:-1] if trail else (1, 1), dtype=dtype)
+    if kind == 'badshape_samesize' and len(trail) >= 2:
+        # same rank, same number of elements per row, different trailing shape: (k,2,3) -> (k,6,1)
+        return np.zeros((1, int(np.prod(trail))) + (1,) * (len(trail) - 1), dtype=dtype)
+    if kind in ('badshape_samesize', 'badshape0rows'):
+        return np.zeros((0,) + (trail[:-1] + (trail[-1] + 1,) if trail else (2,)), dtype=dtype)
     if kind == 'unconvertible_str':
         x = np.zeros((1,) + trail, dtype=object)
         x[...] = 'x'
